@@ -10,6 +10,7 @@ import ConfModel.Lemmas.Handoff
 import ConfModel.Lemmas.HandoffGlue
 import ConfModel.Lemmas.HandoffRetry
 import ConfModel.Lemmas.HandoffInit
+import ConfModel.Lemmas.HandoffAsync
 namespace ConfModel.Props.C16
 open ConfModel ConfModel.Handoff
 
@@ -762,5 +763,106 @@ example : slotLive "a" false (outcomeBeforeInit ⟨"a", 0, [.complete "a" 7], [.
   decide
 
 end glue
+/-! ### the glue around the slots (4): the per-call hand-off through the REAL transport
+(`newWireCaptureTransport` → `TracingRoundTripper` → builder → `wireTracer.Complete` → `setWireTrace`),
+where the trace is completed by whichever comes first of: the round trip failing, the body read
+to its end, the body closed, or — asynchronously, on the middleware's goroutine — the call's
+context being done.  Scripts are arbitrary interleavings, over any number of calls, of
+{round trip begins / returns, context done, the goroutine fires, body read to end, body closed,
+the wait begins, is joined, is peeked at, its grace period ends}. -/
+section wireasync
+open WireHandoff HandoffGlue WireAsync
+
+/-- The observations of every such script are exactly what the history-based `specObs` allows for
+the lowered script (the predicate the check evaluates on the real code). -/
+theorem async_exec_eq_spec (bare : List Nat) (ops : List AOp) :
+    (execA bare ops).2 = specObs bare (lowerAll init0 ops) :=
+  wire_exec_eq_spec bare _
+
+/-- EXACTLY ONCE at the collector: whatever the interleaving, at most one event of a call gets
+through its builder — `wireTracer.Complete` is called at most once per call … -/
+theorem async_completes_once (ops : List AOp) (k : Nat) :
+    ((lowerAll init0 ops).filterMap (completesCall k)).length ≤ 1 := by
+  have := lower_count k ops init0
+  simpa [init0, RT.init] using this
+
+/-- … hence `setWireTrace` never runs twice for one context (it would close a closed channel):
+no script observes `panic`.  This discharges what the op `wire` has to assume. -/
+theorem async_never_twice (bare : List Nat) (ops : List AOp) : Obs.panic ∉ (execA bare ops).2 :=
+  no_panic ops _ _ (joint_init bare)
+
+/-- RIGHT WAITER: every trace an examination returns is a trace of the call it examines
+(`t / 8` is the call of trace `t`), for every script. -/
+theorem async_right_waiter (bare : List Nat) (ops : List AOp) :
+    ∀ p ∈ (lowerAll init0 ops).zip (execA bare ops).2, rightObs p.1 p.2 = true :=
+  right_exec _ _ (bareOK_init bare) (by intro k t h; simp [WireHandoff.init] at h)
+    (fun j t h => lower_right ops init0 j t h)
+
+/-- NO LOSS: in every script, after any prefix `pre`, an event that is `completing` for call `k` in
+the state reached — the goroutine fires while armed, the body is read to its end or closed while
+open, the round trip fails — leaves the trace of a prepared call `k` stored in its wrapper, it
+is a trace of call `k`, it is the first one completed, and nothing that follows (`post`) removes
+or replaces it. -/
+theorem async_no_loss (bare : List Nat) (pre post : List AOp) (k : Nat) (e : Ev)
+    (hk : bare.contains k = false) (hc : completing (gateAll init0 pre k) e = true) :
+    ∃ t, ((execA bare (pre ++ .ev k e :: post)).1.calls k).avail = some t ∧ t / 8 = k ∧
+      firstTrace k (lowerAll init0 (pre ++ .ev k e :: post)) = some t := by
+  have hk' : ¬ k ∈ bare := by simpa using hk
+  have hav : ((execA bare (pre ++ .ev k e :: post)).1.calls k).avail =
+      firstTrace k (lowerAll init0 (pre ++ .ev k e :: post)) := by
+    unfold execA
+    rw [exec_avail _ _ k (by simp [WireHandoff.init, hk'])]; simp [WireHandoff.init]
+  have hsome : (firstTrace k (lowerAll init0 (pre ++ .ev k e :: post))).isSome = true := by
+    rw [lowerAll_append, firstTrace_append]
+    cases hcl : (gateAll init0 pre k).closed with
+    | true =>
+      rcases closed_first k pre init0 hcl with h | h
+      · simp [init0, RT.init] at h
+      · cases hf : firstTrace k (lowerAll init0 pre) with
+        | none => rw [hf] at h; simp at h
+        | some t => simp
+    | false =>
+      have h1 := completing_closes _ _ hc
+      cases hg : (gate (gateAll init0 pre k) e).2 with
+      | none => rw [gate_none _ _ hg, hcl] at h1; simp at h1
+      | some c =>
+        simp only [lowerAll]
+        rw [firstTrace_cons, completesCall_lowerEv_same, hg]
+        cases firstTrace k (lowerAll init0 pre) <;> simp
+  cases hf : firstTrace k (lowerAll init0 (pre ++ .ev k e :: post)) with
+  | none => rw [hf] at hsome; simp at hsome
+  | some t =>
+    refine ⟨t, by rw [hav, hf], ?_, rfl⟩
+    exact lower_right _ init0 k t (firstTrace_mem k _ t hf)
+
+/-- non-vacuity: the wait of call 1 begins, its context is cancelled, the goroutine fires later
+(after a peek that still sees it waiting): the trace "call 1, cancelled with response" (8·1+3)
+is stored and joined; reading the body to its end afterwards changes nothing -/
+example :
+    let pre : List AOp := [.ev 1 .rtBegin, .ev 1 (.rtEnd true), .begin 1, .ev 1 .ctxDone, .peek 1]
+    completing (gateAll init0 pre 1) .fire = true ∧
+    (execA [] (pre ++ .ev 1 .fire :: [.join 1, .ev 1 .readEnd, .join 1])).2 =
+      [.none, .none, .waiting, .none, .waiting, .none, .trace 11, .none, .idle] := by decide
+
+/-- CANCELLATION ARMS THE COMPLETION: in every script, once the round trip of a call has begun
+and its context is done — in either order — the middleware's goroutine is armed (its firing is
+`completing`: `async_no_loss`), or it has fired and the builder has handed the trace over. -/
+theorem async_ctx_arms (pre : List AOp) (k : Nat)
+    (hp : (gateAll init0 pre k).phase ≠ .none) (hd : (gateAll init0 pre k).ctxDone = true) :
+    completing (gateAll init0 pre k) .fire = true ∨
+      ((gateAll init0 pre k).gor = .spent ∧ (gateAll init0 pre k).closed = true) := by
+  have h := rinv_gateAll pre init0 (fun _ => rinv_init) k
+  have h1 := h.1 hp hd
+  cases hg : (gateAll init0 pre k).gor with
+  | idle => exact absurd hg h1
+  | armed => left; simp [completing, hg]
+  | spent => right; exact ⟨rfl, h.2.1 hg⟩
+
+example : (gateAll init0 [.ev 0 .ctxDone, .begin 0, .ev 0 .rtBegin] 0).phase ≠ .none ∧
+    (gateAll init0 [.ev 0 .ctxDone, .begin 0, .ev 0 .rtBegin] 0).ctxDone = true ∧
+    (execA [] [.ev 0 .ctxDone, .begin 0, .ev 0 .rtBegin, .ev 0 .fire, .ev 0 (.rtEnd true), .join 0]).2 =
+      [.none, .waiting, .none, .none, .none, .trace 5] := by decide
+
+end wireasync
 
 end ConfModel.Props.C16
